@@ -231,7 +231,8 @@ def run_invalid_name(spec):
 
 # ---------------------------------------------------------------------------------------------------
 INVALID_MODEL_KINDS = ['dup-country', 'dup-sector', 'dunder-local', 'dunder-code', 'no-supplier', 'ambiguous-supplier',
-                       'cross-flow-no-ext', 'cross-supplier-no-ext', 'gold-no-ext']
+                       'cross-flow-no-ext', 'cross-supplier-no-ext', 'gold-no-ext', 'ext-code-taken', 'dup-market-code',
+                       'second-external']
 
 
 @st.composite
@@ -266,6 +267,16 @@ def run_invalid_model(spec):
         elif kind == 'dunder-local':
             want = ValueError
             hh.AddVariable('a__b', 'bad', '1.0')
+        if kind == 'ext-code-taken':
+            from sfc_models.external import ExternalSector
+            Country(mod, 'EXT')
+            ExternalSector(mod)
+        elif kind == 'second-external':
+            from sfc_models.external import ExternalSector
+            ExternalSector(mod)
+            ExternalSector(mod)
+        elif kind == 'dup-market-code':
+            Market(c, 'HH')
         bus = FixedMarginBusiness(c, 'BUS')
         tf = TaxFlow(c, 'TF', taxrate=0.2)
         lab = Market(c, 'LAB')
@@ -311,7 +322,7 @@ FAMILIES = [
     Family('fault', fault_case, run_fault, quick=1200, thorough=40000),
     Family('contraction', contraction_case, run_contraction, quick=1000, thorough=40000),
     Family('invalid-names', invalid_name_case, run_invalid_name, quick=1500, thorough=20000),
-    Family('invalid-models', invalid_model_case, run_invalid_model, quick=150, thorough=2000),
+    Family('invalid-models', invalid_model_case, run_invalid_model, quick=300, thorough=4000),
 ]
 
 MANIFEST_INFO = {
